@@ -6,7 +6,7 @@
     ids, [run step sched state threads] executes it; every theorem quantifying over [sched] and the
     thread list holds for every interleaving of any number of goroutines. *)
 From Coq Require Import String List NArith Bool Arith Permutation.
-From Fabio Require Import Lib.Outcome Lib.Bytes Model.Interleave Model.GlobCacheC06 Model.GlobCacheFine
+From Fabio Require Import Lib.Outcome Lib.Bytes Model.Interleave Model.GlobCacheC06 Model.GlobCacheFine Model.Access Model.AccessC06
   Proofs.Interleave Proofs.GlobCacheC06 Proofs.GlobCacheFine Proofs.InterleaveMore.
 Import ListNotations.
 
@@ -213,6 +213,18 @@ Theorem C06_redirect_static_every_schedule : forall tmpl sched reqs, static tmpl
          (snd (run (rd_step_unrepaired tmpl) sched rd_start (map (fun q => rd_init_unrepaired (fst q) (snd q)) reqs))).
 Proof. exact redirect_static_every_schedule_l. Qed.
 Print Assumptions C06_redirect_static_every_schedule.
+
+(* ---- the access decision ---- *)
+(* The verdict is C12's access function ([access_denied_http]: rule map, peer address, X-Forwarded-For values;
+   net.ParseIP / net.SplitHostPort are parameters).  Any number of requests against one target, EVERY
+   schedule: the rule map is never written, and the verdict each request receives is the access function of
+   THAT request alone - whatever other requests (same peer with another X-Forwarded-For, same
+   X-Forwarded-For from another peer) were decided before or meanwhile. *)
+Theorem C06_access_every_schedule : forall pip sh sched r reqs,
+  let res := run (ac_step pip sh) sched r (map ac_init reqs) in
+  fst res = r /\ Forall (fun l => forall v, ac_verdict l = Some v -> v = ac_alone pip sh r (ac_rq l)) (snd res).
+Proof. exact access_every_schedule_results_l. Qed.
+Print Assumptions C06_access_every_schedule.
 
 (* ---- with those three shared effects set aside a lookup reads nothing but its arguments ---- *)
 (* the answer is a function of table, request and the cursor of the answering route ... *)
